@@ -89,6 +89,12 @@ fn main() {
         "worker" => {
             props::worker_main(&args[2..]);
         }
+        // debugging aid: run C01's driver in-process on a file (`vp drive <preset 0-4> <file>`), e.g. under gdb
+        "drive" => {
+            let p: u8 = args[2].parse().unwrap_or(1);
+            let bytes = std::fs::read(&args[3]).expect("read file");
+            println!("{}", props::c01::drive(p, &bytes));
+        }
         "run" => {
             if args.len() < 4 {
                 usage();
